@@ -127,12 +127,27 @@ def run_case(case, name):
           (ReplicationInterface.END_REPLICATION_EVENT, "endrepl")]
     names = {id(et): nm for et, nm in NT}
 
+    # stop() issued by the controlling thread while the run thread is inside a handler ("extstop"):
+    # the handler files a numbered request and waits; the controlling thread (in wait_quiet) calls
+    # stop(); the handler is released as soon as STOPPING has been fired (or the call was refused), so
+    # the run thread is back in its wait before _stop_impl gives up waiting for it.
+    main_thread = threading.current_thread()
+    ext = {"n": 0, "handling": 0, "answered": 0, "results": {}, "gates": {}}
+
+    def ext_answer(rid, r):
+        if ext["answered"] < rid:
+            ext["answered"] = rid
+            ext["results"][rid] = r
+            ext["gates"][rid].set()
+
     class Collector(EventListener):
         def notify(self, event):
             nm = names.get(id(event.event_type), "other")
             ts = getattr(event, "timestamp", None)
             rec["ntfs"].append([nm, None if ts is None else to_q(ts)])
             rec["log"].append(["ntf", nm, None if ts is None else to_q(ts)])
+            if nm == "stopping" and threading.current_thread() is main_thread and ext["handling"] > ext["answered"]:
+                ext_answer(ext["handling"], "ok")
 
     coll = Collector()
 
@@ -228,6 +243,19 @@ def run_case(case, name):
                 elif kind == "cmd":
                     r = issue(a[1])
                     rec["outs"].append({"ok": "cmdok", "refused": "cmdref"}.get(r, r))
+                elif kind == "extstop":
+                    if threading.current_thread() is main_thread:
+                        r = issue(["stop"])            # inside step(): the controlling thread is the run thread
+                    else:
+                        rid = ext["n"] + 1
+                        ext["gates"][rid] = threading.Event()
+                        ext["n"] = rid
+                        r = ext["results"].get(rid) if ext["gates"][rid].wait(5.0) else "exc:RendezvousTimeout"
+                        if r == "ok":       # released when STOPPING was fired; stop() writes the run state right after
+                            t1 = time.time()
+                            while sim.run_state.name in ("STARTING", "STARTED") and time.time() - t1 < 1.0:
+                                time.sleep(0.0002)
+                    rec["outs"].append({"ok": "cmdok", "refused": "cmdref"}.get(r, r))
                 elif kind == "obs":
                     observe(self, a[1], a[2])
                 else:
@@ -298,6 +326,10 @@ def run_case(case, name):
         last_n = len(rec["log"])
         why = None
         while busy():
+            if ext["n"] > ext["handling"]:
+                rid = ext["handling"] = ext["n"]
+                r0 = issue(["stop"])
+                ext_answer(rid, r0)              # no-op when STOPPING was fired (already answered "ok")
             now = time.time()
             n = len(rec["log"])
             if n != last_n:
